@@ -2,7 +2,7 @@ SPECIFICATION Spec
 CONSTANTS
   DEC = 100
   U128MAX = 100000
-  NTop = 30
-  Amps = {1, 5, 50}
+  NTop = 18
+  Amps = {1, 5, 20}
 INVARIANTS Curve2OK Curve3OK RampOK
 CHECK_DEADLOCK FALSE
